@@ -26,6 +26,23 @@ class ZoneMixin:
     def replay_env(self, values):
         return {'TZ': tz_string(values.get('z', 0))}
 
+    # the calendar is modelled abstractly (uninterpreted year/yday + validated facts): a counter-model's (t, z) need not be
+    # the instant at which the refuted clause really fails, so a non-replaying model is followed by a search over boundary instants
+    replayable = False
+
+    def seeds(self):
+        import calendar
+        out = []
+        for year in (1970, 1971, 1999, 2000, 2001, 2020, 2021, 2024, 2025, 2038, 2100, 2101, 2155):
+            for (mo, d, h) in ((1, 1, 0), (12, 31, 23), (2, 28, 23), (3, 1, 0), (6, 15, 12)):
+                base = calendar.timegm((year, mo, d, h, 0, 0))
+                for dt in (-3600 * 13, -1, 0, 1, 3600 * 13):
+                    for z in (-48, -20, -1, 0, 1, 22, 36, 56):
+                        t = base + dt
+                        if 0 <= t and t + 900 * z < T_MAX and t != 0:
+                            out.append({'t': t, 'z': z})
+        return out
+
 
 def u8(x):
     """two's complement byte of a signed value in -128..127"""
